@@ -58,6 +58,54 @@ def lemma_deps(name, acc=None):
     return acc
 
 
+def fork_map(fn, items, nproc):
+    """map in forked children (they inherit the z3 terms of this process); results are pickled
+    back through pipes.  Falls back to a serial map for short lists."""
+    import pickle
+    if nproc <= 1 or len(items) < 6:
+        return [fn(x) for x in items]
+    chunks = [items[i::nproc] for i in range(nproc)]
+    kids = []
+    for ch in chunks:
+        if not ch:
+            continue
+        r, w = os.pipe()
+        pid = os.fork()
+        if pid == 0:
+            code = 0
+            try:
+                os.close(r)
+                res = []
+                for x in ch:
+                    try:
+                        res.append((x, fn(x)))
+                    except Exception as e:      # never let a child die silently
+                        res.append((x, {'status': 'undecided', 'backend': 'z3', 'time': 0.0,
+                                        'model': None, 'reason': 'discharge crashed: %s' % e,
+                                        'name': 'obligation#%s' % x, 'props': [], 'kind': '?',
+                                        'func': '?', 'label': '?', 'line': None, 'path': ''}))
+                with os.fdopen(w, 'wb') as f:
+                    pickle.dump(res, f)
+            except BaseException:
+                code = 1
+            finally:
+                os._exit(code)
+        os.close(w)
+        kids.append((pid, r))
+    got = {}
+    for pid, r in kids:
+        with os.fdopen(r, 'rb') as f:
+            data = f.read()
+        os.waitpid(pid, 0)
+        if data:
+            for x, v in pickle.loads(data):
+                got[x] = v
+    missing = [x for x in items if x not in got]
+    for x in missing:
+        got[x] = fn(x)
+    return [got[x] for x in items]
+
+
 def run_task(task):
     """task = (kind, name, seed, tier) -> result dict (picklable)"""
     kind, name, seed, tier = task
@@ -112,13 +160,16 @@ def run_task(task):
                                callees=sorted(eng.stats['callee_contracts']),
                                unverified_termination=sorted(eng.unverified_termination),
                                model_notes=sorted(eng.intr.notes))
-            for o in obls:
+            def one(i):
+                o = obls[i]
                 r = solve.discharge(axs, o, seed, cross=cross)
                 r.update(name=o.name, props=o.props, kind=o.kind, func=o.func, label=o.label,
                          line=o.line, path=o.path)
                 if r['status'] != 'discharged':
                     r['goal'] = str(z3.simplify(o.goal))[:600]
-                out['obligations'].append(r)
+                return r
+            out['obligations'].extend(fork_map(one, list(range(len(obls))),
+                                               int(os.environ.get('PYVC_INNER_JOBS', '8'))))
     except Exception as e:     # checker error, never a violation
         out['error'] = '%s: %s\n%s' % (type(e).__name__, e, traceback.format_exc()[-1500:])
     out['wall'] = round(time.time() - t0, 3)
